@@ -256,6 +256,6 @@ ASSUMED = ["relocation specification rows (contracts/relocspec.py), T5",
            "quick tier: one representative per distinct (token size, field layout, signedness) of the %d (token class, field) pairs; "
            "the thorough tier runs all pairs" % N_FIELDS_TOTAL]
 NOT_COVERED = ["that each instruction class maps its operands to the right fields (C08)",
-               "relocation classes without a row: %s" % sorted(RS.NO_ROW)]
+               "relocation classes without a row: %s" % sorted(k for k in RS.NO_ROW if not k.endswith(":CRel"))]
 
 KNOWN_HELPERS = {"row_accepts": RS.row_accepts}
